@@ -434,10 +434,13 @@ def traced(jobs, check, tag, timeout=900, chunk_limit=250000):
     chunks = {}
     collect_chunks(res, chunks)
     cp = os.path.join(d, "chunks.ndjson")
+    hidx = {}
     with open(cp, "w") as f:
         for ch in chunks.values():
-            f.write(json.dumps(ch) + "\n")
+            hidx[ch["h"]] = len(hidx) + 1
+            f.write(json.dumps({"h": ch["h"], "code": ch["code"]}) + "\n")
     out = [r[:j["_nsteps"]] for r, j in zip(res, jl)]
+    enter_re = re.compile(r'"h":(\d+),')
     # split the trace file into pieces of bounded size (ndJsonDeserialize materialises the whole file)
     pieces = []
     cur = []
@@ -450,6 +453,9 @@ def traced(jobs, check, tag, timeout=900, chunk_limit=250000):
                     pieces.append(cur)
                     cur = []
                     n = 0
+                if line.startswith('{"e":"enter"'):
+                    m = enter_re.search(line)
+                    line = line.replace('{"e":"enter",', '{"e":"enter","c":%d,' % hidx.get(int(m.group(1)), 0), 1)
                 cur.append(line)
                 n += 1
     if cur:
